@@ -1656,6 +1656,9 @@ namespace avel {
 
     [[nodiscard]]
     AVEL_FINL div_type<vec2x64u> div(vec2x64u numerator, vec2x64u denominator) {
+        // A zero divisor in one lane must not trap. The result for that lane is unspecified
+        denominator = blend(denominator == vec2x64u{0x00}, vec2x64u{0x01}, denominator);
+
         auto n0 = extract<0>(numerator);
         auto n1 = extract<1>(numerator);
 
